@@ -80,7 +80,7 @@ type Outcome struct {
 	NonTrivial   bool
 	Inconclusive string // harness trouble (step cap ...): never a violation
 	Res          *simrt.Result
-	Checks       int // oracle evaluations performed
+	Checks       int  // oracle evaluations performed
 	HorizonOK    bool // the property uses the horizon as its bounded-liveness signal and judges it itself
 }
 
@@ -206,29 +206,29 @@ type VioReport struct {
 
 // ProcResult is what one OS process reports to the driver.
 type ProcResult struct {
-	Prop          string             `json:"prop"`
-	Tier          string             `json:"tier"`
-	Seed          uint64             `json:"seed"`
-	Proc          int                `json:"proc"`
-	Runs          int                `json:"runs"`
-	NonTrivial    int                `json:"nontrivial"`
-	Digests       []uint64           `json:"digests"` // digests of non-trivial runs (for distinct counting across processes)
-	Inconclusive  int                `json:"inconclusive"`
-	InconclSample string             `json:"inconclusive_sample,omitempty"`
-	Violations    []*VioReport       `json:"violations"`
-	Faults        map[string]int     `json:"faults"`
-	Probes        map[string]int     `json:"probes"`
-	Steps         int64              `json:"steps"`
-	SimSeconds    float64            `json:"sim_seconds"`
-	WallS         float64            `json:"wall_s"`
-	Samples       []json.RawMessage  `json:"samples"`
-	Checks        int64              `json:"checks"`
-	DistinctSched int                `json:"distinct_schedules"`
-	Race          bool               `json:"race"`
-	DetRechecked  int                `json:"determinism_rechecked"`
-	DetMismatch   []string           `json:"determinism_mismatch,omitempty"`
-	Error         string             `json:"error,omitempty"`
-	RaceReports   int                `json:"race_reports"`
+	Prop          string            `json:"prop"`
+	Tier          string            `json:"tier"`
+	Seed          uint64            `json:"seed"`
+	Proc          int               `json:"proc"`
+	Runs          int               `json:"runs"`
+	NonTrivial    int               `json:"nontrivial"`
+	Digests       []uint64          `json:"digests"` // digests of non-trivial runs (for distinct counting across processes)
+	Inconclusive  int               `json:"inconclusive"`
+	InconclSample string            `json:"inconclusive_sample,omitempty"`
+	Violations    []*VioReport      `json:"violations"`
+	Faults        map[string]int    `json:"faults"`
+	Probes        map[string]int    `json:"probes"`
+	Steps         int64             `json:"steps"`
+	SimSeconds    float64           `json:"sim_seconds"`
+	WallS         float64           `json:"wall_s"`
+	Samples       []json.RawMessage `json:"samples"`
+	Checks        int64             `json:"checks"`
+	DistinctSched int               `json:"distinct_schedules"`
+	Race          bool              `json:"race"`
+	DetRechecked  int               `json:"determinism_rechecked"`
+	DetMismatch   []string          `json:"determinism_mismatch,omitempty"`
+	Error         string            `json:"error,omitempty"`
+	RaceReports   int               `json:"race_reports"`
 }
 
 // Replay file.
